@@ -994,7 +994,7 @@ MANIFEST = {
             "comparing shape and all values with the group's representative, every construct in the numerical layer that can make one row's result "
             "depend on other rows (batch-level branches, row-axis reductions) is either a recognised skip-empty-work idiom or an explained triaged site "
             "(a new one is a violation), each level-2 group is evaluated with its own key function, and shorter paths are edge-padded with their last "
-            "pose. Level-2 tiling/reshape index arithmetic and scalar-vs-vector numeric equality are not decided. Also decided: the scalar and vectorised elliptic routines agree on every branch condition (sibling check), group rows are scattered to their members' positions. Round 3: row-expanded arguments of one field-function call use one expansion (K3), and an axis-layout type system (LAY) decides tile/repeat/reshape/concatenate/split order for the whole level-2 plumbing by assume/guarantee over get_src_dict, getBH_level1 and getBH_level2. Rounds 4-5: recorded group positions must be used (L2-SCATTER).",
+            "pose. Level-2 tiling/reshape index arithmetic and scalar-vs-vector numeric equality are not decided. Also decided: the scalar and vectorised elliptic routines agree on every branch condition (sibling check), group rows are scattered to their members' positions. Round 3: row-expanded arguments of one field-function call use one expansion (K3), and an axis-layout type system (LAY) decides tile/repeat/reshape/concatenate/split order for the whole level-2 plumbing by assume/guarantee over get_src_dict, getBH_level1 and getBH_level2. Rounds 4-5: recorded group positions must be used (L2-SCATTER). Rounds 6-7: integer row numbers index arrays of their own index space (IDX-SPACE), no store through an array-indexed copy (LOST-WRITE), no regrouping of batch rows by concatenated selections (K2b); K1/K2 apply to the functions that can be handed a batch (reachable from the registered level-1 functions and magpylib.core), all spellings of an emptiness test are one site, tests on row counts are read as the mask test they equal, the group-by loop over np.unique is an accepted idiom.",
     "design_ref": "DESIGN.md §3 C06",
     "note": "Trusted: python ast; the triage tables K1_TRIAGED/K2_TRIAGED (47 entries, one line of reason each) confirmed by reading the code.",
     "technique": "static analysis: syntactic inventory with triage memory (Engler-style deviant-site rule), boolean path-condition admission rule, def-use",
